@@ -225,6 +225,16 @@ class MapIter:
         self.m, self.keys, self.i = m, keys, i
 
 
+class Poison:
+    """value of a pointer/container variable that a loop modifies and the loop contract does not re-establish: any use is refused"""
+
+    def __init__(self, why):
+        self.why = why
+
+    def __getattr__(self, name):
+        raise Unsupported("use of " + object.__getattribute__(self, "why"))
+
+
 class CReturn(Exception):
     def __init__(self, v):
         self.v = v
@@ -743,6 +753,58 @@ class CInterp:
             saved_after = self.loop_counter
         self.loop_counter = saved_after if saved_after is not None else self._skip_loops(body, saved)
 
+    def _assigned_vars(self, node, declared, out):
+        """ids (with declared type) of the variables assigned anywhere in `node`; variables declared inside it are skipped"""
+        if not isinstance(node, dict):
+            return
+        k = node.get("kind")
+        if k == "VarDecl":
+            declared.add(node.get("id"))
+        tgt = None
+        if k == "BinaryOperator" and node.get("opcode") == "=":
+            tgt = node["inner"][0]
+        elif k == "CompoundAssignOperator":
+            tgt = node["inner"][0]
+        elif k == "UnaryOperator" and node.get("opcode") in ("++", "--"):
+            tgt = node["inner"][0]
+        elif k == "CXXOperatorCallExpr":
+            inner = node.get("inner", [])
+            callee = inner[0] if inner else {}
+            nm = ""
+            c = callee
+            while isinstance(c, dict) and not nm:
+                nm = (c.get("referencedDecl") or {}).get("name", "")
+                c = (c.get("inner") or [None])[0]
+            if nm in ("operator=", "operator+=", "operator-=", "operator*=", "operator/=", "operator++", "operator--") and len(inner) > 1:
+                tgt = inner[1]
+        while isinstance(tgt, dict) and tgt.get("kind") in ("ParenExpr", "ImplicitCastExpr"):
+            tgt = (tgt.get("inner") or [None])[0]
+        if isinstance(tgt, dict) and tgt.get("kind") == "DeclRefExpr":
+            rd = tgt.get("referencedDecl", {})
+            out[rd.get("id")] = (rd.get("name"), rd.get("type", {}).get("qualType", ""))
+        for c in node.get("inner", []) or []:
+            self._assigned_vars(c, declared, out)
+
+    def _auto_havoc(self, body, inc, env, where):
+        declared, assigned = set(), {}
+        self._assigned_vars(body, declared, assigned)
+        self._assigned_vars(inc, declared, assigned)
+        for vid, (name, qt) in assigned.items():
+            if vid in declared or vid not in env:
+                continue
+            base = qt.replace("const", "").strip()
+            tag = f"{name}@{where}"
+            if base == "bool":
+                env[vid] = SBool(z3.Bool(core.fresh_name(tag)))
+            elif base in ("int", "unsigned int", "long", "size_t", "unsigned long", "short", "char"):
+                env[vid] = SInt(z3.Int(core.fresh_name(tag)))
+            elif base in ("float", "double"):
+                env[vid] = SReal(z3.Real(core.fresh_name(tag)))
+            elif "fvec4" in base:
+                env[vid] = FV([SReal(z3.Real(core.fresh_name(f"{tag}.{k}"))) for k in range(4)])
+            else:
+                env[vid] = Poison(f"{name} (modified in {where}; its value at an arbitrary iteration is not given by the loop contract)")
+
     def _loop_inv(self, key, spec, cond, inc, body, env):
         ex = self.ex
         where = f"{key[0]}:loop#{key[1]}"
@@ -752,6 +814,10 @@ class CInterp:
         saved = dict(self.loop_counter)
         pres = ex.branch(z3.Bool(core.fresh_name(f"explore-body-of-{where}")))
         ghost = {"entry": False}
+        # SOUNDNESS: every variable the loop assigns (body, increment) is set to an arbitrary value of its type BEFORE the contract's
+        # own havoc runs, so a variable the contract does not know about (e.g. introduced by a code change) is not silently kept at its
+        # pre-loop value.  Pointers and containers get a poison value whose use is refused.
+        self._auto_havoc(body, inc, env, where)
         for a in spec.havoc(self, env, ghost) or []:
             ex.assume(a)
         for name, c in spec.invariant(self, env, ghost):
